@@ -124,6 +124,9 @@ def umap_templates(u, what):
                       f"u0 index {p}", f"u0 index_mut {p} 1"]
         if "remove" in what:
             t += [f"u0 remove q:{c}#0", f"u0 remove_entry k:{c}#0"]
+        if "entry_ins" in what:
+            t += [f"u0 entry {{k{c}}} [1] oi:0#0", f"u0 entry {{k{c}}} [] oiw:0#0", f"u0 entry {{k{c}}} [1,1] oiwk:0#0",
+                  f"u0 entry {{k{c}}} [] v.insert:0#0"]
         if "entry" in what:
             t += [f"u0 entry {{k{c}}} [1] oi:0#0", f"u0 entry {{k{c}}} [] oiw:0#0", f"u0 entry {{k{c}}} [1,1] oiwk:0#0",
                   f"u0 entry {{k{c}}} [] o.get", f"u0 entry {{k{c}}} [] o.get_mut:1", f"u0 entry {{k{c}}} [] o.into_mut",
@@ -399,7 +402,7 @@ def gen_C03(o, rng, tier):
     o.op("m0 with_capacity 3")
     o.op("m0 with_capacity 4")
     o.end()
-    umap_product(o, 2, {'insert', 'entry'}, full_only=True)
+    umap_product(o, 2, {'insert', 'entry_ins'}, full_only=True)
 
 
 def gen_C04_phase1(o, rng, tier):
@@ -553,7 +556,7 @@ def gen_C05(o, rng, tier):
             o.op(f"{r} len")
             o.op(f"{r} iter iter 0 lnnnnnnnl")
         o.end()
-    umap_product(o, 2, {'insert', 'remove', 'entry', 'bulk'})
+    umap_product(o, 2, {'insert', 'remove', 'entry_ins', 'bulk'})
 
 
 def gen_C06(o, rng, tier):
@@ -777,7 +780,7 @@ def gen_C12(o, rng, tier):
                         o.op(f"s0 get q:{d}#0")
                     o.op("s0 iter nnnnn")
                     o.end()
-    umap_product(o, 2, {'insert', 'lookup', 'remove', 'entry'})
+    umap_product(o, 2, {'insert', 'lookup', 'remove', 'entry_ins'})
 
 
 def gen_C13(o, rng, tier, unchecked=False, eq="lawful"):
